@@ -519,6 +519,31 @@ def run(ctx) -> None:
                     seps.add(x.args[0].value)
         ok = sep_w is not None and seps == {sep_w}
         rep.add("C14.R5", "separator-agreement", ok, conv.loc(), f"writer joins with {sep_w!r}, PauseInfo splits on {sorted(seps)}" if ok else f"path separator differs: writer {sep_w!r} vs PauseInfo {sorted(seps)}")
+        # every answer key follows the whole nesting path: all graph-node names before the interrupt's own name, joined
+        # by '.', in both key properties (they must agree with each other at any depth)
+        n_keys = 0
+        for m in pi.methods.values():
+            if "node_name" not in src(m.node) or not m.is_property:
+                continue
+            n_keys += 1
+            text = src(m.node)
+            splits = [x for x in walk_local(m.node) if isinstance(x, ast.Call) and isinstance(x.func, ast.Attribute) and x.func.attr in ("split", "rsplit", "partition", "rpartition")]
+            whole = False
+            whyk = "the key prefix is not derived from the whole path"
+            for c in splits:
+                if c.func.attr == "split" and len(c.args) == 1 and not c.keywords:
+                    whole = "[:-1]" in text and '"."' in text.replace("'", '"')
+                    whyk = "the prefix is every path element but the last, joined by '.'" if whole else "the split path is not used as 'all elements but the last'"
+                elif c.func.attr == "rpartition" or (c.func.attr == "rsplit" and len(c.args) == 2 and isinstance(c.args[1], ast.Constant) and c.args[1].value == 1):
+                    whole = ".replace(" in text
+                    whyk = "the prefix is everything before the last separator, separators replaced by '.'" if whole else "the part before the last separator keeps its '/' separators"
+                else:
+                    whole = False
+                    whyk = f"'{src(c)}' cuts the path at its first separator: for an interrupt two or more graph levels down only the outermost graph-node name survives, so the key the PAUSED result reports is not the path-qualified key (and response_keys disagrees with response_key)"
+                    break
+            rep.add("C14.R5", f"{m.qname}:key-follows-whole-path", whole and bool(splits), m.loc(), whyk)
+        if n_keys < 2:
+            raise AnalysisError("PauseInfo key properties not found")
         # the prefixed name starts with this node's name
         from .common import wrapper_param
 
